@@ -178,6 +178,23 @@ fn tail(host: &Host, n: usize) -> String {
 
 /// All monitors.  `host` is the state after the run.
 pub fn check(host: &Host, end: &RunEnd, cx: &Ctx) -> Vec<Finding> {
+    let mut out = check_base(host, end, cx);
+    // scenarios written for exactly one of C21-C23 own everything they exhibit
+    // (a panic or trap anywhere in the runtime during such a scenario is that
+    // check's observation; nobody else runs the scenario)
+    if let [only] = cx.props {
+        if matches!(*only, "C21" | "C22" | "C23") {
+            for fd in out.iter_mut() {
+                if !matches!(fd.prop, "inconclusive" | "harness") {
+                    fd.prop = only;
+                }
+            }
+        }
+    }
+    out
+}
+
+fn check_base(host: &Host, end: &RunEnd, cx: &Ctx) -> Vec<Finding> {
     let mut out = vec![];
     let any_cancel = host.tasks.iter().any(|t| t.cancel_delivered);
 
@@ -185,7 +202,11 @@ pub fn check(host: &Host, end: &RunEnd, cx: &Ctx) -> Vec<Finding> {
     if let Some(p) = &end.panic {
         let owner = panic_owner(&p.file);
         let base = p.file.rsplit('/').next().unwrap_or(&p.file);
-        out.push(f(owner, format!("panic:{}:{}", base, normalize(&p.msg)), format!("guest panicked at {}:{}: {}; trace tail: {}", p.file, p.line, p.msg, tail(host, 12))));
+        let what = format!("guest panicked at {}:{}: {}; trace tail: {}", p.file, p.line, p.msg, tail(host, 12));
+        match crate::monitors2::classify_panic(host, p, cx) {
+            Some((prop, sig)) => out.push(f(prop, sig, what)),
+            None => out.push(f(owner, format!("panic:{}:{}", base, normalize(&p.msg)), what)),
+        }
         return out;
     }
     if let Some((kind, what)) = &host.trap {
@@ -197,6 +218,17 @@ pub fn check(host: &Host, end: &RunEnd, cx: &Ctx) -> Vec<Finding> {
     if end.step_limit_hit {
         out.push(f("inconclusive", "step-limit", "driver step limit reached"));
         return out;
+    }
+
+    // ---- C21 / C22 / C23
+    if cx.props.contains(&"C21") {
+        crate::monitors2::c21(host, &mut out);
+    }
+    if cx.props.contains(&"C22") || cx.props.contains(&"C23") {
+        crate::monitors2::c22(host, &mut out);
+    }
+    if cx.props.contains(&"C23") {
+        crate::monitors2::c23(host, end, &mut out);
     }
 
     // ---- M1: set ledger
@@ -588,6 +620,7 @@ pub fn check(host: &Host, end: &RunEnd, cx: &Ctx) -> Vec<Finding> {
             Obj::Set { .. } => "C18",
             Obj::Subtask(_) => "C21",
             Obj::ErrCtx(_) => "any",
+            Obj::Res { .. } => "C21",
         };
         out.push(f(prop, format!("handle-never-dropped:{d}"), format!("handle {h} ({d}) is still live after every task has exited")));
     }
